@@ -310,6 +310,12 @@ def construct_models_in_parallel(sample, chr_id, dump_filename, args, read_group
         aggregator.transcript_model_global_counter.dump()
         transcript_stat_counter.dump(transcript_stat_file)
     logger.info("Finished processing chromosome " + chr_id)
+    # everything must be on disk before the chromosome is marked as processed: --resume relies on the marker
+    aggregator.global_printer.flush()
+    for printer in (tmp_gff_printer, tmp_extended_gff_printer, sqanti_t2t_printer):
+        for handler_name in ("out_gff", "out_r2t", "output_file"):
+            if hasattr(printer, handler_name):
+                getattr(printer, handler_name).flush()
     open(lock_file, "w").close()
 
     return aggregator.read_stat_counter, transcript_stat_counter
